@@ -579,6 +579,16 @@ pub fn stages(ctx: &Ctx) -> Vec<Stage> {
             cfg.t1 = cfg.t0 + cfg.dt0() * rng.r(0.3, 1.5);
             rep.count(&format!("{}/short_interval_large_trial_cases", solver.name()), 1);
         }
+        if solver == Solver::Euler && (i / 7) % 12 == 5 {
+            // Euler, one case in twelve: the interval straddles zero and is shorter than the step, so the one
+            // and only step is the clipped one, end - start is inexact, and start + (end - start) may round
+            // one ulp short of the end: whatever is yielded then must still be Euler steps of the observed lengths
+            cfg.t0 = -rng.r(0.05, 2.0);
+            cfg.t1 = rng.r(0.05, 2.0);
+            cfg.dt_max = (cfg.t1 - cfg.t0) * rng.r(1.2, 5.0);
+            cfg.dt_min = cfg.dt_max * 1e-7;
+            rep.count("Euler/single_clipped_step_across_zero_cases", 1);
+        }
         let mode = if rng.bool() { DimMode::Static } else { DimMode::Dynamic };
         run_case(rep, solver, &prob, &cfg, mode);
     }));
@@ -692,6 +702,7 @@ pub fn thresholds(ctx: &Ctx, rep: &Report) -> Vec<Threshold> {
     for s in [Solver::RK45, Solver::RK23] {
         t.push(Threshold { what: format!("{}: tolerances located where the first trial's estimate equals the tolerance exactly", s.name()), required: ctx.tier.pick(60.0, 1_200.0), observed: rep.counter(&format!("{}/estimate_equals_tolerance_cases", s.name())) as f64 });
     }
+    t.push(Threshold { what: "Euler: intervals across zero shorter than the step".into(), required: ctx.tier.pick(1_000.0, 20_000.0), observed: rep.counter("Euler/single_clipped_step_across_zero_cases") as f64 });
     for s in [Solver::RK45, Solver::RK23] {
         t.push(Threshold { what: format!("{}: solves with a state above 10 x tolerance / machine epsilon", s.name()), required: ctx.tier.pick(2_000.0, 40_000.0), observed: rep.counter(&format!("{}/large_state_cases", s.name())) as f64 });
     }
